@@ -80,9 +80,25 @@ def fmt(x):
 # ------------------------------------------------------------------------------------------
 # library glue (imports inside functions: a case builds fresh objects)
 # ------------------------------------------------------------------------------------------
-def lib_model(model):
+# every way hyperbolic.Model documents of naming a drawable model: the member NAMES (aliases included) as enum members
+# and as strings in any letter case ("can be compared to strings ... match any alias name (case insensitive)")
+MODEL_ALIASES = {"poincare": ["POINCARE"], "klein": ["KLEIN", "KLEINIAN", "AFFINE"], "halfspace": ["HALFSPACE", "HALFPLANE"]}
+NAME_FORMS = ["enum", "upper", "lower", "capitalized", "mixed"]
+
+
+def lib_model(model, mname=None):
+    """What is handed to HyperbolicDrawing(model=...): Model.<canonical member> or, with mname = [alias, form], that
+    alias of `model` as an enum member / a string in the given letter case."""
     from geometry_tools.hyperbolic import Model
-    return {"poincare": Model.POINCARE, "halfspace": Model.HALFSPACE, "klein": Model.KLEIN}[model]
+    canonical = {"poincare": Model.POINCARE, "halfspace": Model.HALFSPACE, "klein": Model.KLEIN}[model]
+    if mname is None:
+        return canonical
+    alias, form = mname
+    if alias not in MODEL_ALIASES[model]:
+        raise AssertionError("HARNESS: %s is not a name of the %s model" % (alias, model))
+    if form == "enum":
+        return getattr(Model, alias)
+    return {"upper": alias, "lower": alias.lower(), "capitalized": alias.capitalize(), "mixed": alias.capitalize().swapcase()}[form]
 
 
 def lib_transform(space, name):
@@ -149,13 +165,13 @@ def reported_transform_violations(space, d, M):
     return []
 
 
-def new_drawing(model, tf, hist=None):
+def new_drawing(model, tf, hist=None, mname=None):
     import matplotlib.pyplot as plt
     from geometry_tools import drawtools
     plt.close("all")
 
     def make(t):
-        return drawtools.HyperbolicDrawing(model=lib_model(model), transform=t)
+        return drawtools.HyperbolicDrawing(model=lib_model(model, mname), transform=t)
     if hist is not None:
         return apply_history("hyperbolic", make, hist)
     return make(lib_transform("hyperbolic", tf))
@@ -188,9 +204,10 @@ def drawing_of(space, where, case):
     constructor transform or, for a case with a transform history, the oracle matrix of the history."""
     hist = case.get("hist")
     new = new_drawing if space == "hyperbolic" else new_proj_drawing
+    kw = {"mname": case["mname"]} if (space == "hyperbolic" and case.get("mname") is not None) else {}
     if hist is None:
-        return new(where, case["tf"]), case["tf"], case["tf"], []
-    d = new(where, None, hist)
+        return new(where, case["tf"], **kw), case["tf"], case["tf"], []
+    d = new(where, None, hist, **kw)
     M = hist_matrix(space, hist)
     return d, M.tolist(), hist_label(hist), reported_transform_violations(space, d, M)
 
@@ -1091,7 +1108,7 @@ def case_horospheres(case):
     model, tf, xi = case["model"], case["tf"], case["xi"]
     v, summ, t = [], set(), 0
     try:
-        d = new_drawing(model, tf)
+        d = new_drawing(model, tf, mname=case.get("mname"))
         thr = threshold()
         for ref in case["refs"]:
             if not horo_in_domain(model, tf, xi, [ref]):
@@ -1424,7 +1441,7 @@ def case_wrongdim(case):
             d = new_proj_drawing(model, "id")
             call = {"point": d.draw_point, "polygon": d.draw_polygon, "segment": d.draw_proj_segment}[kind]
         else:
-            d = new_drawing(model, "id")
+            d = new_drawing(model, "id", mname=case.get("mname"))
             call = {"point": d.draw_point, "polygon": d.draw_polygon, "segment": d.draw_geodesic,
                     "geodesic": d.draw_geodesic, "horosphere": d.draw_horosphere, "horoarc": d.draw_horoarc}[kind]
         before = all_artists()
@@ -1440,6 +1457,54 @@ def case_wrongdim(case):
     finally:
         close_all()
     return {"v": v, "t": 1, "o": o, "nt": True}
+
+
+# ------------------------------------------------------------------------------------------
+# model names: a drawing whose model is named by any documented alias / letter case is a drawing in that model
+# ------------------------------------------------------------------------------------------
+NAMED_CALLS = {"points": "case_points", "polygons": "case_polygons", "geodesics": "case_geodesics",
+               "horospheres": "case_horospheres", "wrongdim": "case_wrongdim"}
+
+
+def case_model_names(case):
+    """case["call"] names the case function of this module that is run with the case (which carries "mname")."""
+    res = globals()[NAMED_CALLS[case["call"]]](case)
+    alias, form = case["mname"]
+    for x in res["v"]:
+        x["key"] = "model-name/%s/%s" % (form, x["key"])
+        x["msg"] = "drawing built with model=%r: %s" % (lib_model(case["model"], case["mname"]), x["msg"])
+    res["o"] = "%s:%s|%s|%s" % (alias, form, case["call"], res["o"])
+    return res
+
+
+def model_name_cases(pts, dirs):
+    tfs = list(TFS)
+    i = 0
+    for model, aliases in MODEL_ALIASES.items():
+        for alias in aliases:
+            for form in NAME_FORMS:
+                if form == "enum" and alias == aliases[0]:
+                    continue                     # the canonical member: what every other section passes
+                i += 1
+                tf = tfs[i % len(tfs)]
+                base = {"model": model, "mname": [alias, form], "tf": tf}
+                items = [{"k": p, "shape": []} for p in pts[:3]] + [{"k": pts[:4], "shape": [2, 2]}]
+                idl = [x for x in dirs if model != "halfspace" or
+                       (not dg.is_infinity(transformed(tf, x)) and dg.angle_from_infinity(transformed(tf, x)) >= 0.2)]
+                items += [{"k": x, "shape": [], "ideal": True} for x in idl[:2]]
+                yield dict(base, call="points", items=items)
+                tails = [[pts[j]] for j in (4, 8, 11)] + [[pts[5], pts[9]]]
+                yield dict(base, call="polygons", head=[pts[0], pts[1]],
+                           tails=[tl for tl in tails if nondegenerate([pts[0], pts[1]] + tl)])
+                a = pts[i % 6]
+                yield dict(base, call="geodesics", kind="segment", a=a, bs=[b for b in pts[:7] if b != a])
+                a = dirs[i % len(dirs)]
+                yield dict(base, call="geodesics", kind="geodesic", a=a, bs=[b for b in dirs if b != a])
+                if model in CONFORMAL:
+                    yield dict(base, call="horospheres", xi=dirs[(i + 1) % len(dirs)], refs=pts[:4])
+                for kind in ("point", "polygon", "segment", "horosphere"):
+                    if kind != "horosphere" or model in CONFORMAL:
+                        yield dict(base, call="wrongdim", space="hyperbolic", kind=kind, n=3 if i % 2 else 1)
 
 
 # ------------------------------------------------------------------------------------------
@@ -1899,6 +1964,19 @@ def run(ctx):
         pc.append({"model": model, "tf": tf, "items": items})
     product("points", "checks.c19:case_points", pc,
                 domains={"points": "every lattice point singly, the whole lattice as one composite, (2,3) and (2,2,2) composites, ideal points"}, chunk=1)
+
+    # model names
+    ctx.assume("model names: a HyperbolicDrawing may be given its model as any member of hyperbolic.Model naming a drawable model (aliases "
+               "KLEINIAN, AFFINE -> Klein; HALFPLANE -> half-plane) or as a string equal to a member NAME in upper, lower, capitalised or mixed case "
+               "(Model: 'compared to strings ... match any alias name (case insensitive)'; the drawtools docstring passes strings); the other "
+               "sections pass the canonical member")
+    mn = list(model_name_cases(sub, dirs))
+    product("model-names", "checks.c19:case_model_names", mn,
+            domains={"names": MODEL_ALIASES, "forms of each name": NAME_FORMS, "transforms": "cycling through %s with the name" % list(TFS),
+                     "calls per name": "draw_point (3 points, a (2,2) composite, 2 ideal points), draw_polygon (3 triangles, 1 quadrilateral), "
+                                       "draw_geodesic (6 segments from one point; geodesics from one ideal direction to every other), "
+                                       "draw_horosphere (conformal models; 4 reference points), wrong-dimension point/polygon/segment/horosphere",
+                     "oracle": "the same per-artist oracles as for the canonical member"}, chunk=4)
 
     # horospheres, horoarcs
     refs = pts if not q else pts[:10]
